@@ -363,6 +363,17 @@ def run(ctx):
             if x.get("k") != "assignop" or not x["op"].startswith("+"):
                 continue
             r_ = hirq.render(x["r"])
+            # (a length computed by a crate-local helper — `Self::terminated_len(name)` — is read through the helper, with the
+            # helper's parameter replaced by the argument)
+            for c0 in hirq.calls(x["r"]):
+                cal = wmo.fns.get(c0.get("fn") or "")
+                if cal is not None and cal.hir and cal.hir["body"] is not f.hir["body"]:
+                    names_ = [b for p_ in cal.hir["params"] for b in hirq.pat_binds(p_)]
+                    args_ = list(c0.get("args") or [])
+                    if c0.get("k") == "mcall":
+                        args_ = [c0["recv"]] + args_
+                    if len(names_) == len(args_):
+                        r_ += " " + hirq.render(hirq.subst(cal.hir["body"], dict(zip(names_, args_))))
             if not re.search(r"name|filename|path|string|texture", r_) or not re.search(r"len\(\)|count\(\)|chars\(\)|width", r_):
                 continue
             ctx.saw_fn(f)
